@@ -396,6 +396,13 @@ def oracle_fails(pid, op, orc, op_core=None):
             out.append("pfx=" + orc["pfx"])
         if orc.get("alloc") == "panic":
             out.append("panic-in-accessor-or-visit")
+        # accessors and iterator adaptors of a parsed object, self_visit of a parsed object
+        if bad("rb") and "panic" in orc["rb"]:
+            out.append("rb=" + orc["rb"])
+        if bad("selfv") and "panics" in orc["selfv"]:
+            out.append("selfv=" + orc["selfv"])
+        if bad("itad") and "panics" in orc["itad"]:
+            out.append("itad=" + orc["itad"])
     elif pid == "C02":
         if bad("part"):
             out.append("part=" + orc["part"])
@@ -417,6 +424,10 @@ def oracle_fails(pid, op, orc, op_core=None):
         v = bad("pfx")
         if v and "callbacks" in v:
             out.append("pfx=" + v)
+        # `self_visit` is a visit of the object's own bytes: its callbacks are the traversal too
+        v = bad("selfv")
+        if v and "callbacks-differ-from-visit(never-breaking)" in v:
+            out.append("selfv=" + v)
     elif pid == "C05":
         a = orc.get("alloc")
         if a is not None and a not in ("0", "panic"):
@@ -424,6 +435,9 @@ def oracle_fails(pid, op, orc, op_core=None):
         a = orc.get("findalloc")
         if a is not None and a != "0":
             out.append(f"findalloc={a} (heap allocations during a search that finds nothing)")
+        a = orc.get("cmpalloc")
+        if a is not None and a != "0":
+            out.append(f"cmpalloc={a} (heap allocations inside the outpoint key comparison)")
         a = orc.get("redballoc")
         if a is not None and a not in ("0", "panic"):
             out.append(f"redballoc={a} (heap allocations inside RedbValue::from_bytes)")
@@ -446,6 +460,33 @@ def oracle_fails(pid, op, orc, op_core=None):
         v = bad("rb")
         if v and re.search(r"tx-preimage|txid|header-hashes|block-accessors", v):
             out.append("rb=" + v)
+        # the digests on the implementation's own line, recomputed: every `tx(...)` callback (and a parsed transaction)
+        # carries the three preimage parts as offsets into the input and the txid of both backends; every header its
+        # view and hash
+        if op_core is not None and op.startswith("visit ") and op.split()[1] in ("tx", "block", "header") and " r=ok" in op_core[:12]:
+            try:
+                raw = bytes.fromhex(op.split()[-1]) if op.split()[-1] != "-" else b""
+            except ValueError:
+                raw = None
+            if raw is not None:
+                import hashlib
+
+                def dsha(x):
+                    return hashlib.sha256(hashlib.sha256(x).digest()).hexdigest()
+
+                def sl(tok):
+                    if tok == "@+0":
+                        return b""
+                    a, _, n = tok[1:].partition("+")
+                    return raw[int(a):int(a) + int(n)]
+                for m in re.finditer(r"pre=(@\d*\+\d+)\|(@\d*\+\d+)\|(@\d*\+\d+),w=\d+,txid=([0-9a-fA-F:MISMATCHpanic]+)", op_core):
+                    if m.group(4) != dsha(sl(m.group(1)) + sl(m.group(2)) + sl(m.group(3))):
+                        out.append("txid-is-not-the-double-sha256-of-the-reported-preimage:" + m.group(4)[:24])
+                        break
+                for m in re.finditer(r"hdr[=(]\(?v=(@\d+\+80),[^()]*?\)?,hash=([0-9a-fA-F:MISMATCHpanic]+)", op_core):
+                    if m.group(2) != dsha(sl(m.group(1))):
+                        out.append("block-hash-is-not-the-double-sha256-of-the-80-header-bytes:" + m.group(2)[:24])
+                        break
     elif pid == "C14":
         v = bad("rb")
         if v and "error-class" in v:
@@ -467,6 +508,23 @@ def oracle_fails(pid, op, orc, op_core=None):
         v = bad("rb")
         if v and re.search(r"iterator|into_iter", v):
             out.append("rb=" + v)
+        if bad("itad"):
+            out.append("itad=" + orc["itad"])
+        # the property itself, on the implementation's own line: the iterator of a parsed output list yields the
+        # outputs its visitor was shown, the hints count down to 0, and the end is final
+        if op_core is not None and op.startswith("visit txouts n ") and op_core.startswith("visit r=ok"):
+            pv = parse_visit(op_core)
+            m = re.search(r"iter=\[(.*)\],hints=\[(.*?)\],(.*)$", pv["obj"] or "") if pv else None
+            if m:
+                outs = [e[e.index(";") + 1:-1] for e in pv["ev"].split("|") if e.startswith("out(")]
+                if m.group(1) != ";".join("(" + o + ")" for o in outs):
+                    out.append("iterator-items-differ-from-the-outputs-shown-to-the-visitor")
+                elif m.group(2) != ",".join(str(k) for k in range(len(outs), -1, -1)):
+                    out.append("iterator-size-hints-do-not-count-down:" + m.group(2)[:60])
+                elif m.group(3) != "after=0:none/0":
+                    out.append("iterator-not-finished-after-its-end:" + m.group(3)[:40])
+            elif pv:
+                out.append("iterator-panics-or-does-not-end")
     elif pid == "C18":
         if op.startswith("num") and bad("ref"):
             out.append("ref=FAIL")
@@ -481,6 +539,8 @@ def oracle_fails(pid, op, orc, op_core=None):
             if bad(k):
                 out.append(f"{k}=" + orc[k])
     elif pid in ("C06", "C11", "C12", "C13"):
+        if pid == "C06" and bad("gv"):
+            out.append("gv=" + orc["gv"])
         v = bad("clog")
         if v:
             tags = [t for t in v[5:].split(",") if t.startswith(pid)]
